@@ -24,6 +24,7 @@ CONSTANTS MaxNode, MaxBlk, MaxBuf, Sizes, InitSizes,
           MaxSteps,            \* number of calls explored from the initial state
           WithWriteDirect,     \* WriteDirect with remain > 0 is part of the program space (finding F3 of the code as it is)
           WithAppend,          \* further read/write buffers and WriteBuffer (Append) are part of the program space
+          WithBook,            \* the poller's book / bookAck pair (connection input path) is part of the program space
           Dev_AppendKeepsTail  \* deviation: WriteBuffer cuts the chain behind the donor's write node only when the donor had readable data
 
 CapMin == 2
@@ -45,7 +46,8 @@ vars == <<nd, nn, pool, nb, bf, owed, last, steps, bad>>
 
 NoNode == [cap |-> 0, len |-> 0, off |-> 0, mal |-> 0, refer |-> 0, unm |-> FALSE, exp |-> FALSE, origin |-> 0, next |-> 0, blk |-> 0, live |-> FALSE]
 NoBuf == [kind |-> "none", head |-> 0, read |-> 0, flush |-> 0, write |-> 0, length |-> 0, msize |-> 0, caches |-> <<>>, cp |-> [blk |-> 0, len |-> 0, cap |-> 0],
-          app |-> 0]   \* readable bytes taken over by WriteBuffer and not yet submitted by Flush (contract: only writes until then)
+          app |-> 0,   \* readable bytes taken over by WriteBuffer and not yet submitted by Flush (contract: only writes until then)
+          booked |-> -1] \* the poller's reservation (book) not yet acknowledged (bookAck); -1: none
 
 Init ==
     /\ \E s \in InitSizes :
@@ -107,8 +109,10 @@ Commit(S, B, op, b, n, m) ==
     /\ steps < MaxSteps /\ steps' = steps + 1
 
 RW(b) == bf[b].kind = "rw"
+\* (the writer API is not mixed with an outstanding reservation of the poller)
+WR(b) == RW(b) /\ bf[b].booked = -1
 Malloc(b, n) ==
-    /\ RW(b) /\ Budget(1, 1)
+    /\ WR(b) /\ Budget(1, 1)
     /\ LET g == Growth(St, bf[b].write, n) S == g[1] w == g[2]
            S2 == [S EXCEPT !.N = [S.N EXCEPT ![w].mal = @ + n]] IN
        Commit(S2, [bf EXCEPT ![b].write = w, ![b].msize = @ + n], "Malloc", b, n, 0)
@@ -122,7 +126,7 @@ ChainAll(N, a) == IF a = 0 THEN <<>> ELSE <<a>> \o ChainAll(N, N[a].next)
 SeqSum(f, s) == LET RECURSIVE Sm(_) Sm(k) == IF k = 0 THEN 0 ELSE f[s[k]] + Sm(k - 1) IN Sm(Len(s))
 
 Flush(b) ==
-    /\ RW(b) /\ Budget(1, 0)
+    /\ WR(b) /\ Budget(1, 0)
     /\ LET w0 == bf[b].write
            S1 == IF nd[w0].cap > PageSize THEN (LET T == NewNode(St, 0) IN [T EXCEPT !.N = [T.N EXCEPT ![w0].next = T.nn]]) ELSE St
            w == IF nd[w0].cap > PageSize THEN S1.nn ELSE w0
@@ -141,7 +145,7 @@ AckWalk(N, w, ack) ==    \* returns <<N, write>>
     IF l >= ack THEN <<[N EXCEPT ![w].mal = ack + N[w].len], w>>
     ELSE AckWalk(N, N[w].next, ack - l)
 MallocAck(b, k) ==
-    /\ RW(b) /\ k <= bf[b].msize /\ bf[b].app = 0
+    /\ WR(b) /\ k <= bf[b].msize /\ bf[b].app = 0
     /\ LET r == AckWalk(nd, bf[b].flush, k) N1 == r[1] w == r[2]
            rest == ChainAll(N1, N1[w].next)
            ids == {rest[j] : j \in 1 .. Len(rest)}
@@ -150,7 +154,7 @@ MallocAck(b, k) ==
     /\ UNCHANGED owed
 
 WriteBinary(b, n) ==
-    /\ RW(b) /\ Budget(1, 1)
+    /\ WR(b) /\ Budget(1, 1)
     /\ IF n > Inplace
        THEN LET S1 == NewNode(St, 0) id == S1.nn w == bf[b].write
                 S2 == [S1 EXCEPT !.N = [S1.N EXCEPT ![w].next = id, ![id] = [@ EXCEPT !.cap = n, !.len = 0, !.mal = n]]] IN
@@ -167,7 +171,7 @@ FindOrigin(N, o, m) ==   \* returns <<origin, malloc offset inside it>>
 RECURSIVE LastOf(_, _)
 LastOf(N, a) == IF N[a].next = 0 THEN a ELSE LastOf(N, N[a].next)
 WriteDirect(n, r) ==
-    /\ Alive(1) /\ Budget(2, 0) /\ r <= bf[1].msize /\ bf[1].msize > 0 /\ bf[1].app = 0
+    /\ WR(1) /\ Budget(2, 0) /\ r <= bf[1].msize /\ bf[1].msize > 0 /\ bf[1].app = 0
     /\ (r > 0 => WithWriteDirect)
     /\ LET fo == FindOrigin(nd, bf[1].flush, bf[1].msize - r) o == fo[1] m == fo[2]
            S1 == NewNode(St, 0) dn == S1.nn
@@ -295,7 +299,7 @@ Slice(b, n) ==
 RECURSIVE RelChain(_, _)
 RelChain(S, h) == IF h = 0 THEN S ELSE (LET nx == S.N[h].next IN RelChain(NodeRelease(S, h), nx))
 Close(b) ==
-    /\ RW(b)
+    /\ WR(b)
     /\ LET dr == DoRelease(St, bf[b]) S2 == RelChain(dr[1], dr[2].head) IN
        Commit(S2, [bf EXCEPT ![b] = [NoBuf EXCEPT !.kind = "closed"]], "Close", b, 0, 0)
     /\ owed' = {o \in owed : o.buf # b}
@@ -314,7 +318,7 @@ NewBuf(s) ==
 RECURSIVE RelUpTo(_, _, _)
 RelUpTo(S, h, r) == IF h = r \/ h = 0 THEN S ELSE (LET nx == S.N[h].next IN RelUpTo(NodeRelease(S, h), nx, r))
 WriteBuffer(b, d) ==
-    /\ WithAppend /\ RW(b) /\ RW(d) /\ b # d
+    /\ WithAppend /\ WR(b) /\ WR(d) /\ b # d
     /\ bf[d].length + bf[d].msize > 0
     /\ (bf[b].msize = 0 \/ bf[d].length = 0) /\ bf[d].app = 0
     /\ bf[d].caches = <<>> /\ bf[d].cp.blk = 0 /\ \A o \in owed : o.buf # d
@@ -328,7 +332,30 @@ WriteBuffer(b, d) ==
                              ![d] = [NoBuf EXCEPT !.kind = "closed"]], "WriteBuffer", b, 0, d)
     /\ UNCHANGED owed
 
+\* book(bookSize, maxSize) / bookAck(n): the poller reserves room in the write node (a new node of maxSize when it is full), the kernel
+\* fills it, bookAck publishes the first n bytes at once (no Flush) and gives the rest back.  The reader side (Next .. Release) may run
+\* between the two.
+Min(a, c) == IF a < c THEN a ELSE c
+Book(b, bs, ms) ==
+    /\ WithBook /\ WR(b) /\ bf[b].msize = 0 /\ bf[b].app = 0 /\ Budget(1, 1)
+    /\ LET w0 == bf[b].write
+           full == nd[w0].cap - nd[w0].mal = 0
+           S1 == IF full THEN (LET T == NewNode(St, ms) IN [T EXCEPT !.N = [T.N EXCEPT ![w0].next = T.nn]]) ELSE St
+           w == IF full THEN S1.nn ELSE w0
+           l == Min(IF full THEN ms ELSE nd[w0].cap - nd[w0].mal, bs)
+           S2 == [S1 EXCEPT !.N = [S1.N EXCEPT ![w].mal = @ + l]] IN
+       Commit(S2, [bf EXCEPT ![b].write = w, ![b].booked = l], "Book", b, bs, ms)
+    /\ UNCHANGED owed
+BookAck(b, n) ==
+    /\ WithBook /\ RW(b) /\ bf[b].booked >= n
+    /\ LET w == bf[b].write
+           S1 == [St EXCEPT !.N = [nd EXCEPT ![w].mal = n + nd[w].len, ![w].len = n + nd[w].len]] IN
+       Commit(S1, [bf EXCEPT ![b].flush = w, ![b].length = @ + n, ![b].booked = -1], "BookAck", b, n, 0)
+    /\ UNCHANGED owed
+
 Next_ ==
+    \/ \E b \in 1 .. MaxBuf, bs \in {1, 2, 4}, ms \in {1, 2, 4} : Book(b, bs, ms)
+    \/ \E b \in 1 .. MaxBuf, n \in 0 .. 4 : BookAck(b, n)
     \/ \E b \in 1 .. MaxBuf, n \in Sizes : Malloc(b, n) \/ WriteBinary(b, n)
     \/ \E b \in 1 .. MaxBuf : Flush(b) \/ Close(b)
     \/ \E b \in 1 .. MaxBuf, k \in 0 .. 3 : MallocAck(b, k)
@@ -357,7 +384,7 @@ Readable(b) == LET c == Chain(nd, bf[b].read, bf[b].flush) IN
                ELSE SeqSum([i \in 1 .. MaxNode |-> NLen(nd, i)], c)
 LengthOK == \A b \in 1 .. MaxBuf : Alive(b) => bf[b].length = Readable(b) + bf[b].app
 Pending(b) == SeqSum([i \in 1 .. MaxNode |-> IF nd[i].mal > nd[i].len THEN nd[i].mal - nd[i].len ELSE 0], ChainAll(nd, bf[b].flush))
-MallocOK == \A b \in 1 .. MaxBuf : RW(b) => bf[b].msize = Pending(b)
+MallocOK == \A b \in 1 .. MaxBuf : RW(b) => bf[b].msize + (IF bf[b].booked > 0 THEN bf[b].booked ELSE 0) = Pending(b)
 NoDeadRelease == "release_of_dead_node" \notin bad
 ChainOK == \A b \in 1 .. MaxBuf : RW(b) => /\ bf[b].read \in Reach(b) /\ bf[b].flush \in Reach(b) /\ bf[b].write \in Reach(b)
                                             /\ \A i \in Reach(b) : nd[i].live
